@@ -109,17 +109,20 @@ def run(ctx):
         gathers = [cc for cc in A.calls_in(m.node) if A.call_attr(cc) == "gather"]
         einsums = [cc for cc in A.calls_in(m.node) if A.call_attr(cc) == "einsum"]
         flat_if = None
+        flat_name = None
+        gathered = {g.args[0].id for g in gathers if g.args and isinstance(g.args[0], ast.Name)}
         for n in ifs:
             names_t = {nm for st in n.body for nm in _assigned(st)}
             names_f = {nm for st in n.orelse for nm in _assigned(st)}
-            if "flat_pars" in names_t & names_f:
-                flat_if = n
-        if gathers and any("flat_pars" in A.names_loaded(g.args[0]) for g in gathers if g.args):
+            both = names_t & names_f & gathered
+            if both:
+                flat_if, flat_name = n, sorted(both)[0]
+        if gathers and gathered and not (gathered <= {"auxdata"}) and any(gg not in A.params_of(m.node) for gg in gathered):
             if flat_if is None:
-                ctx.violated(r2, m, "flat_pars", "parameters are gathered through `flat_pars` but there is no batched/unbatched pair of definitions for it", node=m.node)
+                ctx.violated(r2, m, "gather(...)", "parameters are gathered through a local tensor but there is no batched/unbatched pair of definitions for it", node=m.node)
             else:
-                t_val = next(st.value for st in flat_if.body if "flat_pars" in _assigned(st))
-                f_val = next(st.value for st in flat_if.orelse if "flat_pars" in _assigned(st))
+                t_val = next(st.value for st in flat_if.body if flat_name in _assigned(st))
+                f_val = next(st.value for st in flat_if.orelse if flat_name in _assigned(st))
                 ok_t = A.unparse(t_val) == "pars"
                 ok_f = isinstance(f_val, ast.Call) and A.call_attr(f_val) == "reshape" and A.dotted(f_val.args[0]) == "pars" and A.const_value(f_val.args[1]) == (-1,)
                 if ok_t and ok_f:
@@ -184,8 +187,10 @@ def run(ctx):
     n_red = 0
     for m in scan:
         ctx.touch(m)
+        from ..prov import FuncProv
+        handles = set(FuncProv(m.node).handles)
         for c in A.calls_in(m.node):
-            if A.call_attr(c) in ("sum", "product", "mean", "prod") and isinstance(c.func, ast.Attribute) and A.dotted(c.func.value) in ("tensorlib", "tb", "default_backend"):
+            if A.call_attr(c) in ("sum", "product", "mean", "prod") and isinstance(c.func, ast.Attribute) and A.dotted(c.func.value) in handles:
                 n_red += 1
                 kws = {k.arg: k.value for k in c.keywords}
                 ax = kws.get("axis", c.args[1] if len(c.args) > 1 else None)
